@@ -4,7 +4,10 @@ use crate::prng::Prng;
 use serde_json::{json, Value};
 use std::collections::BTreeMap;
 
+pub mod c18;
 pub mod c28;
+pub mod c31;
+pub mod c33;
 
 #[derive(Clone, Copy, Debug, PartialEq, Eq)]
 pub enum Tier {
@@ -88,7 +91,10 @@ pub trait Check {
 
 pub fn make(id: &str) -> Option<Box<dyn Check>> {
     match id {
+        "C18" => Some(Box::new(c18::C18::new())),
         "C28" => Some(Box::new(c28::C28::new())),
+        "C31" => Some(Box::new(c31::C31::new())),
+        "C33" => Some(Box::new(c33::C33::new())),
         _ => None,
     }
 }
@@ -121,3 +127,15 @@ pub fn shrink_list(items: &[Value]) -> Vec<Vec<Value>> {
     }
     out
 }
+
+/// Key of a panic: file + message without digits (tolerant to line drift).
+pub fn panic_key(p: &str) -> String {
+    // file:line: msg  -> file: msg-without-digits (line drift tolerant)
+    let mut parts = p.splitn(3, ':');
+    let file = parts.next().unwrap_or("");
+    let _line = parts.next();
+    let msg = parts.next().unwrap_or("");
+    let msg: String = msg.chars().filter(|c| !c.is_ascii_digit()).take(80).collect();
+    format!("panic:{}:{}", file.trim_start_matches("/repo/"), msg.trim())
+}
+
